@@ -230,6 +230,8 @@ class FnCtx:
             st.regs[p['name']] = v
             self.base_env[p['name']] = v
             self.input_vals[p['name']] = v
+        for k, p in enumerate(fn.get('params') or []):
+            self.base_env.setdefault('arg%d' % k, st.regs[p['name']])
         for p in (fn.get('freevars') or []):
             v = V.named_val(types, p['type'], 'fv_' + p['name'])
             st.type_facts(v, known_old=True)
@@ -411,7 +413,7 @@ class FnCtx:
 
     def check_post(self, st, fr, vals, ins):
         env = self.result_env(vals)
-        ev = self.evaluator(st, fr, old=self.entry_state, extra=env)
+        ev = self.evaluator(st, fr, old=self.entry_state.with_sink(st), extra=env)
         ev.resolver = None
         for c in self.contract.ensures:
             name = '%s.ensures[%s]' % (self.short, c.label)
@@ -429,7 +431,7 @@ class FnCtx:
         if con.opts.get('frame') == 'off':
             return
         targets = []
-        old_ev = self.evaluator(self.entry_state, fr)
+        old_ev = self.evaluator(self.entry_state.with_sink(st), fr)
         old_ev.resolver = None
         for m in (con.modifies or []):
             try:
